@@ -1076,14 +1076,18 @@ impl TypeSpace {
                 let valid_max = max.is_none() || max.map(|fmax| fmax.le(imax)).unwrap_or(false);
                 if multiple.is_none() && valid_min && valid_max {
                     // If there's a default value and it's either not a number
-                    // or outside of the range for this format, return an
-                    // error.
+                    // or outside of the range for this format or the given
+                    // bounds, return an error.
                     if let Some(default) = metadata
                         .as_ref()
                         .and_then(|m| m.default.as_ref())
                         .and_then(|v| v.as_f64())
                     {
-                        if default < *imin || default > *imax {
+                        if default < *imin
+                            || default > *imax
+                            || min.map_or(false, |fmin| default < fmin)
+                            || max.map_or(false, |fmax| default > fmax)
+                        {
                             return Err(Error::InvalidValue);
                         }
                     }
